@@ -183,6 +183,27 @@ def r4_who_may_send(ck, cx):
     ck.positive('R4', flagged, 'self.request.send in handle()')
 
 
+def _class_ref(cx, fn, e):
+    """is `e` a reference to a framer CLASS: a parameter of the hook, a class of the module, an attribute path hanging off self
+    (self.server.framer, self.factory.framer), or a choice (`a or B`, `a if a else B`) between such references -- never the result
+    of a call and never a module-level function"""
+    if isinstance(e, ast.BoolOp):
+        return all(_class_ref(cx, fn, x) for x in e.values)
+    if isinstance(e, ast.IfExp):
+        return _class_ref(cx, fn, e.body) and _class_ref(cx, fn, e.orelse)
+    if isinstance(e, ast.Name):
+        if e.id in fn.params:
+            return True
+        r = cx.idx.lookup(fn.mod, e.id)
+        return bool(r) and r[0] == 'class'
+    if isinstance(e, ast.Attribute):
+        root = e
+        while isinstance(root, ast.Attribute):
+            root = root.value
+        return isinstance(root, ast.Name) and root.id == 'self' and e.attr == 'framer'
+    return False
+
+
 def r5_per_connection_framer(ck, cx):
     ck.rule('R5', 'each connection handler creates its own framer instance in its per-connection set-up method')
     hooks = {'setup', 'connection_made', 'connectionMade', '__init__'}
@@ -198,7 +219,13 @@ def r5_per_connection_framer(ck, cx):
         ok = False
         for fn, node in found:
             v = node.value
-            fresh = isinstance(v, ast.Call) and (U(v.func) in ('self.server.framer', 'self.factory.framer', 'framer'))
+            # the assigned value with locals substituted, on every path that reaches the assignment
+            subs = []
+            for p in cx.enum(fn, cls, max_depth=0):
+                annotate(p)
+                subs += [getattr(e, '_sub', None) for e in p.ev if e.kind == 'assign' and e.node is node]
+            subs = [x for x in subs if x is not None] or [v]
+            fresh = all(isinstance(x, ast.Call) and _class_ref(cx, fn, x.func) for x in subs)
             if fresh and fn.name in hooks:
                 ok = True
             n += 1
@@ -341,6 +368,45 @@ def r8_one_datagram_per_framer_call(ck, cx, rule='R8'):
     ck.floor(rule, n, 4, 'datagram framer-call paths')
 
 
+def r13_listen_only_stays_unsendable(ck, cx, rule='R13'):
+    """Every front-end's send gates on message.should_respond.  The flag is a CLASS constant (True on the base, False on the
+    listen-only response); an assignment to self.should_respond in a constructor of the hierarchy shadows the class constant, so the
+    gate then reads the instance value.  For each response class the value an instance carries after construction (constructor
+    paths with the base initialisers inlined, keyword options at their defaults) must be the class constant."""
+    from ..msgtables import registered_classes
+    from ..common import annotate
+    ck.rule(rule, 'the should_respond flag a response instance carries after construction is the constant its class declares (False for the listen-only response): no constructor of the hierarchy shadows it')
+    n = nfalse = 0
+    for k in registered_classes(cx)[1] + [cx.idx.cls('pymodbus.pdu.ExceptionResponse')]:
+        want = cx.ce.try_ev(ast.Name(id='should_respond', ctx=ast.Load()), k.mod, k, default=None)
+        if want is None:
+            ck.ob(rule, k.qn, 'the class declares should_respond as a constant', False, detail='should-respond-not-constant', loc=k.loc)
+            continue
+        nfalse += want is False
+        init = cx.idx.find_method(k, '__init__')
+        if init is None:
+            continue
+        ck.saw('classes', k.qn)
+        for p in cx.enum(init, k, max_depth=3, default_kwargs=True):
+            if p.exit and p.exit[0] == 'exc':
+                continue
+            st = annotate(p, heap=False)
+            n += 1
+            v = st.heap.get('self.should_respond')
+            if v is None:
+                continue
+            same = isinstance(v, ast.Constant) and v.value is want
+            if want is True and not isinstance(v, ast.Constant):
+                continue        # depends on what the caller passes; execute() passes nothing of the kind
+            site = next((e for e in p.ev if e.kind == 'assign' and U(e.a) == 'self.should_respond'), None)
+            ck.ob(rule, k.qn, 'an instance carries should_respond = %r, the constant of its class' % want, same,
+                  detail='instance-should-respond %s' % U(v)[:40], loc=cx.floc(site.frame.func, site.node) if site is not None and site.frame.func is not None else k.loc,
+                  message='%s declares should_respond = %r, but its constructor chain stores `%s` on the instance, which is what the front-ends\' send gate reads: %s'
+                          % (k.name, want, U(v)[:50], 'a frame is written for a listen-only response' if want is False else 'the response to a request is suppressed'))
+    ck.floor(rule, n, 30, 'constructor paths of response classes')
+    ck.floor(rule, nfalse, 1, 'response classes declared should_respond = False')
+
+
 def run(ck, tier):
     cx = Ctx()
     ck.guard(r1_r2, ck, cx)
@@ -353,6 +419,7 @@ def run(ck, tier):
     ck.guard(r7_synchronous, ck, cx)
     ck.guard(r8_datagram_destination, ck, cx)
     ck.guard(r8_one_datagram_per_framer_call, ck, cx)
+    ck.guard(r13_listen_only_stays_unsendable, ck, cx)
     from ..share import import_findings
     ck.rule('R12', 'after input the framer could not digest the receive loop drops it, so that the requests that follow are still answered (shared with C12 R1)')
     import_findings(ck, 'C12', 'R12', ('R1',), 'every later request on that line gets no response', detail_prefixes=('no-reset-after',))
